@@ -734,3 +734,106 @@ def rule_record_consumers(ctx):
     # the sorting use in compute_local_expectation_canonical is not a shortcut; rule is armed even with zero tests today
     r.ok("record-consumers[armed]", nontrivial=False)
     return r
+
+
+def rule_record_written(ctx):
+    r = RuleResult(
+        "record-written",
+        "the routines of tn1d/core.py that write the canonical-form record themselves (info['cur_orthog'] = ...) do so on *every* path to a "
+        "normal exit that follows their first change of the tensors: must-analysis over the branches of each such routine — a store, or a "
+        "call that is handed the record (info=info) after the change, has to be met before every return; raising branches are not paths",
+    )
+    m = ctx.prog.modules.get("quimb.tensor.tn1d.core")
+    if m is None:
+        raise AnalysisError("record-written: quimb.tensor.tn1d.core not found")
+    n = 0
+
+    def is_store(st):
+        return isinstance(st, ast.Assign) and any(isinstance(t, ast.Subscript) and const_value(t.slice, None) == "cur_orthog" for t in st.targets)
+
+    def hands_record(st):
+        return any(isinstance(c, ast.Call) and any(k.arg == "info" and isinstance(k.value, ast.Name) for k in c.keywords) for c in ast.walk(st))
+
+    for f in m.all_functions:
+        if f.parent is not None or f.is_alias or isinstance(f.node, ast.Lambda) or "info" not in f.params:
+            continue
+        stores = [x for x in ast.walk(f.node) if is_store(x)]
+        # a routine takes part when it stores the record itself, or works on `x = self if inplace else self.copy()` (the writers proper)
+        working = {a.targets[0].id for a in ast.walk(f.node) if isinstance(a, ast.Assign) and len(a.targets) == 1 and isinstance(a.targets[0], ast.Name)
+                   and isinstance(a.value, ast.IfExp) and isinstance(a.value.body, ast.Name) and a.value.body.id == "self"
+                   and isinstance(a.value.orelse, ast.Call) and isinstance(a.value.orelse.func, ast.Attribute) and a.value.orelse.func.attr == "copy"}
+        if not stores and not working:
+            continue
+        n += 1
+        bad_returns = []
+        # the objects whose canonical form the record describes: receivers of calls that are handed the record
+        tracked = {c.func.value.id for c in ast.walk(f.node) if isinstance(c, ast.Call) and isinstance(c.func, ast.Attribute) and isinstance(c.func.value, ast.Name)
+                   and any(k.arg == "info" and isinstance(k.value, ast.Name) for k in c.keywords)} | working
+
+        def changes(st):
+            """an in-place change of a tracked network that is not itself handed the record (changes of a single tensor — the centre
+            being projected / rescaled — leave the canonical form as recorded)"""
+            for c in ast.walk(st):
+                if isinstance(c, ast.Call) and isinstance(c.func, ast.Attribute) and isinstance(c.func.value, ast.Name) and c.func.value.id in tracked \
+                        and c.func.attr.endswith("_") and not any(k.arg == "info" for k in c.keywords):
+                    return True
+            if isinstance(st, ast.AugAssign) and isinstance(st.target, ast.Name) and st.target.id in tracked:
+                return True
+            return False
+
+        def run(stmts, done):
+            """done: the record is up to date with everything changed so far on this path (True / False); returns the state at the end
+            of the block or None if every path left the function"""
+            for st in stmts:
+                if isinstance(st, ast.Raise):
+                    return None
+                if isinstance(st, ast.Return):
+                    if not done and not (st.value is not None and hands_record(st)):
+                        bad_returns.append(st)
+                    return None
+                if isinstance(st, ast.If):
+                    a = run(st.body, done)
+                    b = run(st.orelse, done)
+                    if a is None and b is None:
+                        return None
+                    done = (a if a is not None else True) and (b if b is not None else True)
+                    continue
+                if isinstance(st, (ast.For, ast.While)):
+                    a = run(st.body, done)
+                    done = done and (a if a is not None else True)
+                    continue
+                if isinstance(st, ast.With):
+                    a = run(st.body, done)
+                    if a is None:
+                        return None
+                    done = a
+                    continue
+                if isinstance(st, ast.Try):
+                    a = run(st.body, done)
+                    hs = [run(h.body, done) for h in st.handlers]
+                    outs = [x for x in [a] + hs if x is not None]
+                    if not outs:
+                        return None
+                    done = all(outs)
+                    continue
+                if is_store(st):
+                    done = True
+                elif hands_record(st):
+                    done = True      # the callee keeps the record in step (checked where it is defined)
+                elif changes(st):
+                    done = False     # an in-place change that the record has not seen yet
+            return done
+
+        end = run(f.node.body, True)
+        q = f.qualname
+        if end is False:
+            bad_returns.append(f.node.body[-1])
+        if bad_returns:
+            st = bad_returns[0]
+            r.bad(Finding("record-written", q, f"a path reaches `{src_of(st)[:50]}` (line {st.lineno}) after changing tensors in place without storing info['cur_orthog'] or handing the "
+                                               "record to the routine that made the change: the caller's record describes the state before the change",
+                          where=f"{m.relpath}:{st.lineno}", operand="path"))
+        else:
+            r.ok(q, sample={"writer": q, "record stores": len(stores), "every path after a change": "stores or hands on the record"})
+    r.floor(n, 5, "routines of tn1d/core.py that store the record themselves")
+    return r
